@@ -169,7 +169,10 @@ def needs_separator(a, b):
         t = R.ref_lex(a[2] + b[2])
     except R.RefLexError:
         return True
-    return [(x[0], x[1]) for x in t] != [(a[0], a[1]), (b[0], b[1])]
+    if [(x[0], x[1]) for x in t] != [(a[0], a[1]), (b[0], b[1])]:
+        return True
+    # same kinds and values, but split at another place (`0b0` + `00655_36` reads as `0b000` + `655_36`): the spans would differ
+    return '\n' not in a[2] and t[0][3] != (0, len(a[2]))
 
 
 def run_shard(spec):
